@@ -352,30 +352,7 @@ func (r *Replica) Finalize(b *Block, between func()) *BlockResult {
 		}
 	}
 	call(func() {
-		resp := r.mux.BeginBlock(types.RequestBeginBlock{
-			Hash: b.Hash,
-			// The finalization of a block gets the block's COMPLETE header (the proposal phase
-			// only a partial one that the multiplexer builds itself): every field is filled in,
-			// the application hash with the state root this replica committed last.
-			Header: cmtproto.Header{
-				Version:            cmtversion.Consensus{Block: 11},
-				ChainID:            r.Doc.ChainID,
-				Height:             b.Height,
-				Time:               b.Time,
-				LastBlockId:        cmtproto.BlockID{Hash: headerFill(b.Hash, "last-block-id"), PartSetHeader: cmtproto.PartSetHeader{Total: 1, Hash: headerFill(b.Hash, "parts")}},
-				LastCommitHash:     headerFill(b.Hash, "last-commit"),
-				DataHash:           cmttypes.Txs(txsOf(b.Txs)).Hash(),
-				ValidatorsHash:     headerFill(b.Hash, "validators"),
-				NextValidatorsHash: b.NextValHash,
-				ConsensusHash:      headerFill(b.Hash, "consensus"),
-				AppHash:            append([]byte(nil), r.AppHash...),
-				LastResultsHash:    headerFill(b.Hash, "last-results"),
-				EvidenceHash:       headerFill(b.Hash, "evidence"),
-				ProposerAddress:    b.Proposer,
-			},
-			LastCommitInfo:      b.LastCommit,
-			ByzantineValidators: b.Misbehavior,
-		})
+		resp := r.mux.BeginBlock(beginBlockRequestFor(r, b))
 		res.Begin = &resp
 	})
 	for _, tx := range b.Txs {
@@ -421,4 +398,32 @@ func txsOf(raw [][]byte) []cmttypes.Tx {
 		out[i] = cmttypes.Tx(t)
 	}
 	return out
+}
+
+// beginBlockRequestFor builds the BeginBlock request of the finalization of b on r.
+func beginBlockRequestFor(r *Replica, b *Block) types.RequestBeginBlock {
+	return types.RequestBeginBlock{
+		Hash: b.Hash,
+		// The finalization of a block gets the block's COMPLETE header (the proposal phase
+		// only a partial one that the multiplexer builds itself): every field is filled in,
+		// the application hash with the state root this replica committed last.
+		Header: cmtproto.Header{
+			Version:            cmtversion.Consensus{Block: 11},
+			ChainID:            r.Doc.ChainID,
+			Height:             b.Height,
+			Time:               b.Time,
+			LastBlockId:        cmtproto.BlockID{Hash: headerFill(b.Hash, "last-block-id"), PartSetHeader: cmtproto.PartSetHeader{Total: 1, Hash: headerFill(b.Hash, "parts")}},
+			LastCommitHash:     headerFill(b.Hash, "last-commit"),
+			DataHash:           cmttypes.Txs(txsOf(b.Txs)).Hash(),
+			ValidatorsHash:     headerFill(b.Hash, "validators"),
+			NextValidatorsHash: b.NextValHash,
+			ConsensusHash:      headerFill(b.Hash, "consensus"),
+			AppHash:            append([]byte(nil), r.AppHash...),
+			LastResultsHash:    headerFill(b.Hash, "last-results"),
+			EvidenceHash:       headerFill(b.Hash, "evidence"),
+			ProposerAddress:    b.Proposer,
+		},
+		LastCommitInfo:      b.LastCommit,
+		ByzantineValidators: b.Misbehavior,
+	}
 }
